@@ -216,3 +216,19 @@ def block_of(func, node_id):
             if isinstance(e, dict) and 'syn' in e and e['syn'].get('id') == node_id:
                 return b['b']
     return None
+
+
+def executes_before(func, a_id, b_id, dom=None):
+    """statement a is executed before b on every path reaching b (block dominance, or earlier element of the same block)"""
+    if dom is None:
+        dom = dominators(func)[0]
+    ba, bb = block_of(func, a_id), block_of(func, b_id)
+    if ba is None or bb is None:
+        return False
+    if ba != bb:
+        return ba in dom.get(bb, ())
+    for blk in func.cfg['blocks']:
+        if blk['b'] == ba:
+            ids = [e if isinstance(e, int) else (e.get('syn', {}).get('id') if isinstance(e, dict) else None) for e in blk['e']]
+            return ids.index(a_id) < ids.index(b_id)
+    return False
